@@ -96,6 +96,11 @@ def programs(ctx):
             p.make(2, t, F(1, 4), u2)
             p.quantize(1, 2, None, 3)
             p.quantize(1, 2, 'ROUND_FLOOR', 3)
+        # ... and a rejected call leaves the configured default mode as it was (ties under rounding=None)
+        p.make(2, 'A', F(1), 'a')
+        for tie in (F(5, 2), F(-7, 2), F(1, 2), F(3, 4)):
+            p.make(1, 'A', tie, 'a', 'dec' if tie.denominator == 2 else 'frac')
+            p.quantize(1, 2, None, 3)
     progs.append(p.d())
     # quantized types: the result is constructed like any other instance
     for dm in MODES:
